@@ -103,7 +103,16 @@ static void tls_sequential(void) {
   for (int k = 0; k < NKEYS; k++) if (live[k]) { myth_setspecific(k, 0); MVH_CHECK(myth_key_delete(k) == 0, "C10-DELETE", "final delete of %d failed", k); live[k] = 0; }
 }
 
-/* mode 1: threads with private dictionaries over a set of keys spread over the index range */
+/* mode 1: threads with private dictionaries over a set of keys spread over the index range.
+   Some of the keys carry a destructor that yields (destructors are user code: they may yield or
+   block, and the exiting thread may migrate inside them while other threads go on allocating). */
+static long tls_dtor_runs;
+static void tls_yield_dtor(void *v) {
+  uint64_t h = wl_mix((uint64_t)(uintptr_t)v, 7);
+  tls_dtor_runs++;
+  for (int i = 0; i < 1 + (int)(h % 3); i++) { if ((h >> (8 + i)) & 1) myth_yield(); else myth_yield_ex(myth_yield_option_steal_first); mvsim_user_point(); }
+}
+static int used_has_dtor[64];
 static void *tls_thread(void *arg) {
   long t = (long)arg;
   void *mine[64]; memset(mine, 0, sizeof mine);
@@ -123,7 +132,7 @@ static void *tls_thread(void *arg) {
     void *g = myth_getspecific(used[j2]);
     MVH_CHECK(g == mine[j2], "C10-GET", "thread %ld reads %p under key %d, last stored %p (worker %d)", t, g, (int)used[j2], mine[j2], myth_get_worker_num());
   }
-  for (int j = 0; j < nused; j++) myth_setspecific(used[j], 0);
+  for (int j = 0; j < nused; j++) if (!used_has_dtor[j]) myth_setspecific(used[j], 0);   /* values under keys with a destructor stay: it runs at exit */
   return (void *)(t + 1);
 }
 
@@ -162,8 +171,9 @@ static void tls_run(const long *p, mvsim_runcfg *cfg, mvsim_runstats *st) {
   else if (p[T_MODE] == 1) {
     int span = (int)p[T_SPAN]; if (span > NKEYS) span = NKEYS;
     myth_key_t all[NKEYS];
+    int with_dtor = (int)(wl_mix(P[Q_SEED], 13) % 2);
     for (int i = 0; i < span; i++) {
-      int rc = myth_key_create(&all[i], 0);
+      int rc = myth_key_create(&all[i], with_dtor && (wl_mix(P[Q_SEED], 2000 + i) % 3 == 0) ? tls_yield_dtor : 0);
       MVH_CHECK(rc == 0, "C10-CREATE", "key_create %d of %d failed (%d)", i, span, rc);
       MVH_CHECK(!live[all[i]], "C10-DUPLICATE", "key %d returned twice", (int)all[i]);
       live[all[i]] = 1;
@@ -176,11 +186,15 @@ static void tls_run(const long *p, mvsim_runcfg *cfg, mvsim_runstats *st) {
     for (int c = 1; c < nused; ) { int i = (int)(mvsim_splitmix(&x) % (uint64_t)span); if (!keep[i]) { keep[i] = 1; c++; } }
     nused = 0;
     for (int i = 0; i < span; i++) {
-      if (keep[i]) used[nused++] = all[i];
+      if (keep[i]) { used_has_dtor[nused] = with_dtor && (wl_mix(P[Q_SEED], 2000 + i) % 3 == 0); used[nused++] = all[i]; }
       else { MVH_CHECK(myth_key_delete(all[i]) == 0, "C10-DELETE", "delete failed"); live[all[i]] = 0; }
     }
-    for (long i = 0; i < n; i++) { TH[i] = myth_create(tls_thread, (void *)i); YIELD(i + 3); }
-    for (int i = 0; i < n; i++) { void *r; myth_join(TH[i], &r); MVH_CHECK(r == (void *)(long)(i + 1), "C01-JOIN-VALUE", "join value"); }
+    /* several generations of threads: later ones run on recycled records and recycled tree nodes */
+    int gens = 1 + (int)(wl_mix(P[Q_SEED], 17) % 3);
+    for (int g = 0; g < gens; g++) {
+      for (long i = 0; i < n; i++) { TH[i] = myth_create(tls_thread, (void *)(i + 16 * g)); YIELD(i + 3 + 40 * g); }
+      for (int i = 0; i < n; i++) { void *r; myth_join(TH[i], &r); MVH_CHECK(r == (void *)(long)(i + 16 * g + 1), "C01-JOIN-VALUE", "join value"); }
+    }
     for (int j = 0; j < nused; j++) { MVH_CHECK(myth_key_delete(used[j]) == 0, "C10-DELETE", "delete failed"); }
     if (mvsim_probe_count(MYTH_VP_STEAL_HIT)) mvh_run_flags |= 1;
   } else {
@@ -225,6 +239,9 @@ static void dtor_common(int f, void *v) {
   MVH_CHECK(key_df[k] == f + 1, "C11-WRONG-DTOR", "destructor %d called with the value stored under key %d, whose destructor is %d", f, (int)k, key_df[k] - 1);
   dcalls[t][s]++;
   MVH_CHECK(dcalls[t][s] == 1, "C11-TWICE", "destructor of key %d called %d times for thread %d", (int)k, dcalls[t][s], t);
+  /* destructors are user code: some of them yield, so the exiting thread may migrate inside them */
+  uint64_t h = wl_mix(P[Q_SEED], 7000 + (uint64_t)t * 64 + (uint64_t)s);
+  if (h % 4 == 0) { for (int i = 0; i < 1 + (int)((h >> 8) % 3); i++) { if ((h >> (12 + i)) & 1) myth_yield(); else myth_yield_ex(myth_yield_option_steal_first); mvsim_user_point(); } }
 }
 static void df0(void *v) { dtor_common(0, v); }
 static void df1(void *v) { dtor_common(1, v); }
